@@ -1,5 +1,6 @@
-(** C16 — the selectors promql/series probes are exactly the selectors of the expression that have no
-    or-fallback of their own (unless-free fragment).  Lemmas about Model/SeriesSelectors.v. *)
+(** C16 — the selectors promql/series probes are exactly the REACHABLE selectors of the expression (all of them,
+    except those inside an `unless` operand that is not a condition) that have no or-fallback of their own.
+    Lemmas about Model/SeriesSelectors.v. *)
 From Coq Require Import List Bool Arith NArith Lia.
 From PintV Require Import Model.SeriesSelectors.
 Import ListNotations.
@@ -27,27 +28,66 @@ Fixpoint prim (e : sexpr) : list N :=
   | EUnless a _ => prim a
   end.
 
+(** some source of the expression is conditional *)
+Fixpoint anycond (e : sexpr) : bool :=
+  match e with
+  | ESel _ | EAlways => false
+  | EWrap x => anycond x
+  | ECmp _ => true
+  | EOr a b => anycond a || anycond b
+  | EJoin c a _ => c || anycond a
+  | EJoinR c _ b => c || anycond b
+  | EUnless a _ => anycond a
+  end.
+
+(** [reach e]: the selectors reached when every source of [e] is walked; [reach_cond e]: when only its conditional
+    sources are.  An `unless` operand is followed through its conditional sources only. *)
+Fixpoint reach (e : sexpr) : list N :=
+  match e with
+  | ESel i => [i]
+  | EAlways => []
+  | EWrap x | ECmp x => reach x
+  | EOr a b | EJoin _ a b | EJoinR _ a b => reach a ++ reach b
+  | EUnless a b => reach a ++ reach_cond b
+  end
+with reach_cond (e : sexpr) : list N :=
+  match e with
+  | ESel _ | EAlways => []
+  | EWrap x => reach_cond x
+  | ECmp x => reach x
+  | EOr a b => reach_cond a ++ reach_cond b
+  | EJoin c a b => if c then reach a ++ reach b else reach_cond a ++ (if anycond a then reach b else [])
+  | EJoinR c a b => if c then reach a ++ reach b else reach_cond b ++ (if anycond b then reach a else [])
+  | EUnless a b => reach_cond a ++ (if anycond a then reach_cond b else [])
+  end.
+
+(** what is reached beyond the primary selectors *)
 Fixpoint nonprim (e : sexpr) : list N :=
   match e with
   | ESel _ | EAlways => []
   | EWrap x | ECmp x => nonprim x
   | EOr a b => nonprim a ++ nonprim b
-  | EJoin _ a b => nonprim a ++ sels b
-  | EJoinR _ a b => nonprim b ++ sels a
-  | EUnless a b => nonprim a
+  | EJoin _ a b => nonprim a ++ reach b
+  | EJoinR _ a b => nonprim b ++ reach a
+  | EUnless a b => nonprim a ++ reach_cond b
   end.
 
 Definition mains (srcs : list source) : list N := flat_map (fun s => opt_list (src_sel s)) srcs.
-Definition alljs (fb : N -> bool) (srcs : list source) : list N := flat_map (join_sels fb) srcs.
-Definition jpart (fb : N -> bool) (srcs : list source) : list N :=
-  flat_map (fun s => flat_map (join_sels fb) (src_joins s)) srcs.
+Definition rest (fb : N -> bool) (srcs : list source) : list N :=
+  flat_map (fun s => walk fb (src_joins s) ++ walk_cond fb (src_unless s)) srcs.
 
-(** --- the helpers preserve what they do not touch ------------------------------------------------- *)
+Definition selpart (fb : N -> bool) (s : source) : list N :=
+  match src_sel s with Some i => if fb i then [] else [i] | None => [] end.
 
-Lemma join_sels_unfold fb s :
-  join_sels fb s = (match src_sel s with Some i => if fb i then [] else [i] | None => [] end)
-                   ++ flat_map (join_sels fb) (src_joins s).
+(** --- the helpers ---------------------------------------------------------------------------------- *)
+
+Lemma operand_sels_unfold fb s :
+  operand_sels fb s = selpart fb s ++ walk fb (src_joins s) ++ walk_cond fb (src_unless s).
 Proof. destruct s; reflexivity. Qed.
+
+Lemma in_operand fb s i :
+  In i (operand_sels fb s) <-> In i (selpart fb s) \/ In i (walk fb (src_joins s)) \/ In i (walk_cond fb (src_unless s)).
+Proof. rewrite operand_sels_unfold, !in_app_iff. tauto. Qed.
 
 Lemma sel_set_cond_if c s : src_sel (set_cond_if c s) = src_sel s.
 Proof. destruct c, s; reflexivity. Qed.
@@ -57,6 +97,8 @@ Lemma joins_set_cond_if c s : src_joins (set_cond_if c s) = src_joins s.
 Proof. destruct c, s; reflexivity. Qed.
 Lemma unless_set_cond_if c s : src_unless (set_cond_if c s) = src_unless s.
 Proof. destruct c, s; reflexivity. Qed.
+Lemma cond_set_cond_if c s : src_cond (set_cond_if c s) = c || src_cond s.
+Proof. destruct c, s; reflexivity. Qed.
 Lemma sel_add_joins B s : src_sel (add_joins B s) = src_sel s.
 Proof. destruct s; reflexivity. Qed.
 Lemma always_add_joins B s : src_always (add_joins B s) = src_always s.
@@ -65,17 +107,31 @@ Lemma joins_add_joins B s : src_joins (add_joins B s) = src_joins s ++ B.
 Proof. destruct s; reflexivity. Qed.
 Lemma unless_add_joins B s : src_unless (add_joins B s) = src_unless s.
 Proof. destruct s; reflexivity. Qed.
+Lemma cond_add_joins B s : src_cond (add_joins B s) = src_cond s.
+Proof. destruct s; reflexivity. Qed.
 
-Lemma join_sels_wrap fb c B s :
-  join_sels fb (set_cond_if c (add_joins B s)) = join_sels fb s ++ alljs fb B.
+Lemma walk_app fb a b : walk fb (a ++ b) = walk fb a ++ walk fb b.
+Proof. apply flat_map_app. Qed.
+Lemma walk_cond_app fb a b : walk_cond fb (a ++ b) = walk_cond fb a ++ walk_cond fb b.
+Proof. apply flat_map_app. Qed.
+
+Lemma operand_set_cond fb s : operand_sels fb (set_cond s) = operand_sels fb s.
+Proof. destruct s; reflexivity. Qed.
+
+Lemma in_operand_join fb c B s i :
+  In i (operand_sels fb (set_cond_if c (add_joins B s))) <-> In i (operand_sels fb s) \/ In i (walk fb B).
 Proof.
-  rewrite (join_sels_unfold fb (set_cond_if c (add_joins B s))), (join_sels_unfold fb s).
-  rewrite sel_set_cond_if, joins_set_cond_if, sel_add_joins, joins_add_joins, flat_map_app.
-  unfold alljs. rewrite app_assoc. reflexivity.
+  rewrite !in_operand. unfold selpart.
+  rewrite sel_set_cond_if, joins_set_cond_if, unless_set_cond_if, sel_add_joins, joins_add_joins, unless_add_joins.
+  rewrite walk_app, in_app_iff. tauto.
 Qed.
 
-Lemma join_sels_set_cond fb s : join_sels fb (set_cond s) = join_sels fb s.
-Proof. destruct s; reflexivity. Qed.
+Lemma in_operand_unless fb B s i :
+  In i (operand_sels fb (add_unless B s)) <-> In i (operand_sels fb s) \/ In i (walk_cond fb B).
+Proof.
+  destruct s as [a b c j u]. rewrite !in_operand. cbn [add_unless src_sel src_joins src_unless selpart].
+  rewrite walk_cond_app, in_app_iff. unfold selpart. cbn [src_sel]. tauto.
+Qed.
 
 Lemma sources_nonempty e : sources_of e <> [].
 Proof.
@@ -90,6 +146,9 @@ Qed.
 Lemma existsb_map_eq {A} (f : A -> A) (p : A -> bool) l : (forall x, p (f x) = p x) -> existsb p (map f l) = existsb p l.
 Proof. intros H. induction l as [|x r IH]; [reflexivity|]. cbn [map existsb]. rewrite H, IH. reflexivity. Qed.
 
+Lemma existsb_map_true {A} (f : A -> A) (p : A -> bool) l : (forall x, p (f x) = true) -> l <> [] -> existsb p (map f l) = true.
+Proof. intros H Hl. destruct l as [|x r]; [contradiction|]. cbn [map existsb]. rewrite H. reflexivity. Qed.
+
 Lemma has_fallback_always e : has_fallback (sources_of e) = always e.
 Proof.
   unfold has_fallback. induction e; cbn [sources_of always]; try reflexivity; try assumption.
@@ -97,6 +156,20 @@ Proof.
   - rewrite existsb_app, IHe1, IHe2. reflexivity.
   - rewrite existsb_map_eq; [exact IHe1|]. intro s. rewrite always_set_cond_if, always_add_joins. reflexivity.
   - rewrite existsb_map_eq; [exact IHe2|]. intro s. rewrite always_set_cond_if, always_add_joins. reflexivity.
+  - rewrite existsb_map_eq; [exact IHe1|]. intros []; reflexivity.
+Qed.
+
+Lemma anycond_sources e : existsb src_cond (sources_of e) = anycond e.
+Proof.
+  induction e; cbn [sources_of anycond]; try reflexivity; try assumption.
+  - apply existsb_map_true; [intros []; reflexivity|apply sources_nonempty].
+  - rewrite existsb_app, IHe1, IHe2. reflexivity.
+  - destruct cmp; cbn [orb].
+    + apply existsb_map_true; [intro s; rewrite cond_set_cond_if; reflexivity|apply sources_nonempty].
+    + rewrite existsb_map_eq; [exact IHe1|]. intro s. rewrite cond_set_cond_if, cond_add_joins. reflexivity.
+  - destruct cmp; cbn [orb].
+    + apply existsb_map_true; [intro s; rewrite cond_set_cond_if; reflexivity|apply sources_nonempty].
+    + rewrite existsb_map_eq; [exact IHe2|]. intro s. rewrite cond_set_cond_if, cond_add_joins. reflexivity.
   - rewrite existsb_map_eq; [exact IHe1|]. intros []; reflexivity.
 Qed.
 
@@ -113,117 +186,162 @@ Proof.
   - rewrite flat_map_map_ext; [exact IHe1|]. intros []; reflexivity.
 Qed.
 
-(** flat_map over sources that each got the same extra joins *)
-Lemma in_flat_map_wrap fb c B A (g : source -> list N) i :
-  (forall s, g (set_cond_if c (add_joins B s)) = g s ++ alljs fb B) -> A <> [] ->
-  (In i (flat_map g (map (fun s => set_cond_if c (add_joins B s)) A)) <-> In i (flat_map g A) \/ In i (alljs fb B)).
+(** flat_map over sources that each got the same extra part [X] *)
+Lemma in_flat_map_add (f : source -> source) (g : source -> list N) (X : list N) A i :
+  (forall s, In i (g (f s)) <-> In i (g s) \/ In i X) -> A <> [] ->
+  (In i (flat_map g (map f A)) <-> In i (flat_map g A) \/ In i X).
 Proof.
-  intros Hg Hne. induction A as [|s r IH]; [contradiction|]. cbn [map flat_map]. rewrite Hg.
+  intros Hg Hne. induction A as [|s r IH]; [contradiction|]. cbn [map flat_map]. rewrite !in_app_iff, Hg.
   destruct r as [|s' r'].
-  - cbn [map flat_map]. rewrite !app_nil_r, in_app_iff. tauto.
-  - rewrite !in_app_iff. rewrite IH by discriminate. tauto.
+  - cbn [map flat_map In]. tauto.
+  - rewrite IH by discriminate. tauto.
 Qed.
 
-Lemma no_unless_sources e : no_unless e = true -> forall s, In s (sources_of e) -> src_unless s = [].
+(** the same for the walk restricted to conditional sources, when [f] keeps the condition flag *)
+Lemma in_walk_cond_add fb (f : source -> source) (X : list N) A i :
+  (forall s, In i (operand_sels fb (f s)) <-> In i (operand_sels fb s) \/ In i X) ->
+  (forall s, src_cond (f s) = src_cond s) ->
+  (In i (walk_cond fb (map f A)) <-> In i (walk_cond fb A) \/ (existsb src_cond A = true /\ In i X)).
 Proof.
-  induction e; cbn [no_unless sources_of]; intros H s Hs.
-  - destruct Hs as [Hs|[]]. subst s. reflexivity.
-  - destruct Hs as [Hs|[]]. subst s. reflexivity.
-  - apply IHe; assumption.
-  - apply in_map_iff in Hs. destruct Hs as [s0 [E Hs]]. subst s. destruct s0 as [a b c j u].
-    apply (IHe H _ Hs).
-  - apply andb_true_iff in H. destruct H. apply in_app_iff in Hs. destruct Hs; [apply IHe1|apply IHe2]; assumption.
-  - apply andb_true_iff in H. destruct H as [H1 H2]. apply in_map_iff in Hs. destruct Hs as [s0 [E Hs]]. subst s.
-    rewrite unless_set_cond_if, unless_add_joins. apply IHe1; assumption.
-  - apply andb_true_iff in H. destruct H as [H1 H2]. apply in_map_iff in Hs. destruct Hs as [s0 [E Hs]]. subst s.
-    rewrite unless_set_cond_if, unless_add_joins. apply IHe2; assumption.
-  - discriminate.
+  intros Hg Hc. unfold walk_cond. induction A as [|s r IH].
+  - cbn. split; [intros []|intros [[]|[H _]]; discriminate].
+  - cbn [map flat_map existsb]. rewrite !in_app_iff, IH, Hc. destruct (src_cond s); cbn [orb].
+    + rewrite Hg. split; [|tauto]. intros [[H|H]|[H|[_ H]]]; tauto.
+    + cbn [In]. tauto.
 Qed.
 
-(** the full traversal of the source trees of an unless-free expression reaches every selector *)
-Lemma alljs_sels fb e : no_unless e = true -> forall i,
-  In i (alljs fb (sources_of e)) <-> In i (sels e) /\ fb i = false.
+(** ... and when [f] makes every source conditional *)
+Lemma walk_cond_all fb (f : source -> source) A :
+  (forall s, src_cond (f s) = true) -> walk_cond fb (map f A) = walk fb (map f A).
 Proof.
-  unfold alljs. induction e as [k| |e IHe|e IHe|e1 IHe1 e2 IHe2|cmp e1 IHe1 e2 IHe2|cmp e1 IHe1 e2 IHe2|e1 IHe1 e2 IHe2]; cbn [no_unless sources_of sels]; intros H i.
-  - cbn [flat_map join_sels app]. destruct (fb k) eqn:E; cbn [In app].
-    + split; [intros []|]. intros [[Hi|[]] Hf]. subst. congruence.
-    + split; [intros [Hi|[]]; subst; tauto|]. intros [[Hi|[]] _]. left. exact Hi.
-  - cbn [flat_map join_sels app In]. tauto.
-  - apply IHe. exact H.
-  - rewrite flat_map_map_ext by (intro s; apply join_sels_set_cond). apply IHe. exact H.
-  - apply andb_true_iff in H. destruct H as [H1 H2]. rewrite flat_map_app, !in_app_iff, IHe1, IHe2 by assumption. tauto.
-  - apply andb_true_iff in H. destruct H as [H1 H2].
-    rewrite (in_flat_map_wrap fb cmp (sources_of e2) (sources_of e1) (join_sels fb) i
-               (fun s => join_sels_wrap fb cmp (sources_of e2) s) (sources_nonempty e1)).
-    unfold alljs. rewrite IHe1, IHe2 by assumption. rewrite in_app_iff. tauto.
-  - apply andb_true_iff in H. destruct H as [H1 H2].
-    rewrite (in_flat_map_wrap fb cmp (sources_of e1) (sources_of e2) (join_sels fb) i
-               (fun s => join_sels_wrap fb cmp (sources_of e1) s) (sources_nonempty e2)).
-    unfold alljs. rewrite IHe1, IHe2 by assumption. rewrite in_app_iff. tauto.
-  - discriminate.
+  intros Hc. unfold walk_cond, walk. induction A as [|s r IH]; [reflexivity|]. cbn [map flat_map]. rewrite Hc, IH. reflexivity.
 Qed.
 
-(** the join part: everything that is not a primary selector *)
-Lemma jpart_nonprim fb e : no_unless e = true -> forall i,
-  In i (jpart fb (sources_of e)) <-> In i (nonprim e) /\ fb i = false.
+Lemma if_in (c : bool) (l : list N) i : In i (if c then l else []) <-> c = true /\ In i l.
+Proof. destruct c; cbn [In]; split; intros; try tauto. destruct H; discriminate. Qed.
+
+(** --- the walks, read structurally ------------------------------------------------------------------- *)
+
+Lemma walks fb e : forall i,
+  (In i (walk fb (sources_of e)) <-> In i (reach e) /\ fb i = false) /\
+  (In i (walk_cond fb (sources_of e)) <-> In i (reach_cond e) /\ fb i = false).
 Proof.
-  unfold jpart. induction e as [k| |e IHe|e IHe|e1 IHe1 e2 IHe2|cmp e1 IHe1 e2 IHe2|cmp e1 IHe1 e2 IHe2|e1 IHe1 e2 IHe2]; cbn [no_unless sources_of nonprim]; intros H i.
+  induction e as [k| |e IHe|e IHe|e1 IHe1 e2 IHe2|cmp e1 IHe1 e2 IHe2|cmp e1 IHe1 e2 IHe2|e1 IHe1 e2 IHe2]; intro i;
+    cbn [sources_of reach reach_cond].
+  - unfold walk, walk_cond. cbn [flat_map src_cond operand_sels app]. rewrite ?app_nil_r. split.
+    + destruct (fb k) eqn:E; cbn [In].
+      * split; [intros []|]. intros [[H|[]] Hf]. subst. congruence.
+      * split; [intros [H|[]]; subst; tauto|]. intros [[H|[]] _]. left. exact H.
+    + cbn [In]. tauto.
+  - unfold walk, walk_cond. cbn. tauto.
+  - apply IHe.
+  - destruct (IHe i) as [W _]. split.
+    + unfold walk. rewrite flat_map_map_ext by (intro s; apply operand_set_cond). exact W.
+    + rewrite walk_cond_all by (intros []; reflexivity).
+      unfold walk. rewrite flat_map_map_ext by (intro s; apply operand_set_cond). exact W.
+  - destruct (IHe1 i) as [W1 C1]. destruct (IHe2 i) as [W2 C2]. split.
+    + rewrite walk_app, !in_app_iff, W1, W2. tauto.
+    + rewrite walk_cond_app, !in_app_iff, C1, C2. tauto.
+  - destruct (IHe1 i) as [W1 C1]. destruct (IHe2 i) as [W2 C2].
+    assert (In i (walk fb (map (fun s => set_cond_if cmp (add_joins (sources_of e2) s)) (sources_of e1)))
+            <-> In i (reach e1 ++ reach e2) /\ fb i = false) as HW.
+    { unfold walk at 1. rewrite (in_flat_map_add _ (operand_sels fb) (walk fb (sources_of e2)) (sources_of e1) i
+                 (fun s => in_operand_join fb cmp (sources_of e2) s i) (sources_nonempty e1)).
+      fold (walk fb (sources_of e1)). rewrite W1, W2, in_app_iff. tauto. }
+    split; [exact HW|]. destruct cmp.
+    + rewrite walk_cond_all by (intro s; rewrite cond_set_cond_if; reflexivity). exact HW.
+    + rewrite (in_walk_cond_add fb _ (walk fb (sources_of e2)) (sources_of e1) i
+                 (fun s => in_operand_join fb false (sources_of e2) s i)
+                 (fun s => eq_trans (cond_set_cond_if false _) (cond_add_joins _ s))).
+      rewrite C1, W2, anycond_sources, in_app_iff, if_in. tauto.
+  - destruct (IHe1 i) as [W1 C1]. destruct (IHe2 i) as [W2 C2].
+    assert (In i (walk fb (map (fun s => set_cond_if cmp (add_joins (sources_of e1) s)) (sources_of e2)))
+            <-> In i (reach e1 ++ reach e2) /\ fb i = false) as HW.
+    { unfold walk at 1. rewrite (in_flat_map_add _ (operand_sels fb) (walk fb (sources_of e1)) (sources_of e2) i
+                 (fun s => in_operand_join fb cmp (sources_of e1) s i) (sources_nonempty e2)).
+      fold (walk fb (sources_of e2)). rewrite W1, W2, in_app_iff. tauto. }
+    split; [exact HW|]. destruct cmp.
+    + rewrite walk_cond_all by (intro s; rewrite cond_set_cond_if; reflexivity). exact HW.
+    + rewrite (in_walk_cond_add fb _ (walk fb (sources_of e1)) (sources_of e2) i
+                 (fun s => in_operand_join fb false (sources_of e1) s i)
+                 (fun s => eq_trans (cond_set_cond_if false _) (cond_add_joins _ s))).
+      rewrite C2, W1, anycond_sources, in_app_iff, if_in. tauto.
+  - destruct (IHe1 i) as [W1 C1]. destruct (IHe2 i) as [W2 C2]. split.
+    + unfold walk at 1. rewrite (in_flat_map_add _ (operand_sels fb) (walk_cond fb (sources_of e2)) (sources_of e1) i
+                 (fun s => in_operand_unless fb (sources_of e2) s i) (sources_nonempty e1)).
+      fold (walk fb (sources_of e1)). rewrite W1, C2, in_app_iff. tauto.
+    + rewrite (in_walk_cond_add fb _ (walk_cond fb (sources_of e2)) (sources_of e1) i
+                 (fun s => in_operand_unless fb (sources_of e2) s i)).
+      * rewrite C1, C2, anycond_sources, in_app_iff, if_in. tauto.
+      * intros []; reflexivity.
+Qed.
+
+(** the part of getNonFallbackSelectors beyond the primary selectors *)
+Lemma rest_nonprim fb e : forall i, In i (rest fb (sources_of e)) <-> In i (nonprim e) /\ fb i = false.
+Proof.
+  unfold rest.
+  induction e as [k| |e IHe|e IHe|e1 IHe1 e2 IHe2|cmp e1 IHe1 e2 IHe2|cmp e1 IHe1 e2 IHe2|e1 IHe1 e2 IHe2]; intro i;
+    cbn [sources_of nonprim].
   - cbn. tauto.
   - cbn. tauto.
-  - apply IHe. exact H.
-  - rewrite flat_map_map_ext by (intros []; reflexivity). apply IHe. exact H.
-  - apply andb_true_iff in H. destruct H as [H1 H2]. rewrite flat_map_app, !in_app_iff, IHe1, IHe2 by assumption. tauto.
-  - apply andb_true_iff in H. destruct H as [H1 H2].
-    rewrite (in_flat_map_wrap fb cmp (sources_of e2) (sources_of e1) (fun s => flat_map (join_sels fb) (src_joins s)) i).
-    + rewrite IHe1 by assumption. rewrite (alljs_sels fb e2 H2). rewrite in_app_iff. tauto.
-    + intro s. rewrite joins_set_cond_if, joins_add_joins, flat_map_app. reflexivity.
+  - apply IHe.
+  - rewrite flat_map_map_ext by (intros []; reflexivity). apply IHe.
+  - rewrite flat_map_app, !in_app_iff, IHe1, IHe2. tauto.
+  - rewrite (in_flat_map_add _ (fun s => walk fb (src_joins s) ++ walk_cond fb (src_unless s)) (walk fb (sources_of e2)) (sources_of e1) i).
+    + rewrite IHe1. destruct (walks fb e2 i) as [W2 _]. rewrite W2, in_app_iff. tauto.
+    + intro s. rewrite joins_set_cond_if, unless_set_cond_if, joins_add_joins, unless_add_joins, walk_app, !in_app_iff. tauto.
     + apply sources_nonempty.
-  - apply andb_true_iff in H. destruct H as [H1 H2].
-    rewrite (in_flat_map_wrap fb cmp (sources_of e1) (sources_of e2) (fun s => flat_map (join_sels fb) (src_joins s)) i).
-    + rewrite IHe2 by assumption. rewrite (alljs_sels fb e1 H1). rewrite in_app_iff. tauto.
-    + intro s. rewrite joins_set_cond_if, joins_add_joins, flat_map_app. reflexivity.
+  - rewrite (in_flat_map_add _ (fun s => walk fb (src_joins s) ++ walk_cond fb (src_unless s)) (walk fb (sources_of e1)) (sources_of e2) i).
+    + rewrite IHe2. destruct (walks fb e1 i) as [W1 _]. rewrite W1, in_app_iff. tauto.
+    + intro s. rewrite joins_set_cond_if, unless_set_cond_if, joins_add_joins, unless_add_joins, walk_app, !in_app_iff. tauto.
     + apply sources_nonempty.
-  - discriminate.
+  - rewrite (in_flat_map_add _ (fun s => walk fb (src_joins s) ++ walk_cond fb (src_unless s)) (walk_cond fb (sources_of e2)) (sources_of e1) i).
+    + rewrite IHe1. destruct (walks fb e2 i) as [_ C2]. rewrite C2, in_app_iff. tauto.
+    + intros [a b c j u]. cbn [add_unless src_joins src_unless]. rewrite walk_cond_app, !in_app_iff. tauto.
+    + apply sources_nonempty.
 Qed.
 
 (** getNonFallbackSelectors, read structurally (any fallback predicate) *)
-Lemma checked_with_struct fb e : no_unless e = true -> forall i,
+Lemma checked_with_struct fb e : forall i,
   In i (checked_with fb (sources_of e)) <->
   (In i (prim e) /\ always e = false) \/ (In i (nonprim e) /\ fb i = false).
 Proof.
-  intros H i. unfold checked_with. rewrite has_fallback_always.
-  pose proof (no_unless_sources e H) as Hu.
-  assert (forall srcs, (forall s, In s srcs -> src_unless s = []) ->
-            (In i (flat_map (fun s => (if always e then [] else opt_list (src_sel s))
-                                      ++ flat_map (join_sels fb) (src_joins s)
-                                      ++ flat_map (fun u => if src_cond u then opt_list (src_sel u) else []) (src_unless s)) srcs)
-             <-> In i (if always e then [] else mains srcs) \/ In i (jpart fb srcs))) as Hsplit.
-  { induction srcs as [|s r IH]; intros Hs.
+  intro i. unfold checked_with. rewrite has_fallback_always.
+  assert (forall srcs,
+            In i (flat_map (fun s => (if always e then [] else opt_list (src_sel s))
+                                     ++ walk fb (src_joins s) ++ walk_cond fb (src_unless s)) srcs)
+            <-> In i (if always e then [] else mains srcs) \/ In i (rest fb srcs)) as Hsplit.
+  { induction srcs as [|s r IH].
     - cbn. destruct (always e); cbn; tauto.
-    - cbn [flat_map]. rewrite !in_app_iff. rewrite IH by (intros s' Hs'; apply Hs; right; exact Hs').
-      rewrite (Hs s (or_introl eq_refl)). cbn [flat_map]. unfold mains, jpart. cbn [flat_map].
+    - cbn [flat_map]. rewrite !in_app_iff, IH. unfold mains, rest. cbn [flat_map].
       destruct (always e); cbn [In]; rewrite ?in_app_iff; tauto. }
-  rewrite (Hsplit _ Hu). rewrite (jpart_nonprim fb e H). rewrite mains_prim.
+  rewrite Hsplit, rest_nonprim, mains_prim.
   destruct (always e); cbn [In]; split; intros; try tauto.
-  destruct H0 as [[_ Hf]|Hr]; [discriminate|tauto].
+  destruct H as [[_ Hf]|Hr]; [discriminate|tauto].
 Qed.
 
 (** --- the fallback predicate of the code on primary selectors --------------------------------------- *)
 
-Lemma sels_split e i : no_unless e = true -> (In i (sels e) <-> In i (prim e) \/ In i (nonprim e)).
+Lemma reach_split e i : In i (reach e) <-> In i (prim e) \/ In i (nonprim e).
 Proof.
   induction e as [k| |e IHe|e IHe|e1 IHe1 e2 IHe2|cmp e1 IHe1 e2 IHe2|cmp e1 IHe1 e2 IHe2|e1 IHe1 e2 IHe2];
-    cbn [no_unless sels prim nonprim]; intro H; rewrite ?in_app_iff; try tauto; try discriminate.
+    cbn [reach prim nonprim]; rewrite ?in_app_iff; try tauto.
   - cbn. tauto.
-  - apply andb_true_iff in H. destruct H as [H1 H2]. specialize (IHe1 H1). specialize (IHe2 H2). tauto.
-  - apply andb_true_iff in H. destruct H as [H1 H2]. specialize (IHe1 H1). tauto.
-  - apply andb_true_iff in H. destruct H as [H1 H2]. specialize (IHe2 H2). tauto.
 Qed.
 
-Lemma prim_in_sels e i : In i (prim e) -> In i (sels e).
+Lemma reach_sels e : forall i, (In i (reach e) -> In i (sels e)) /\ (In i (reach_cond e) -> In i (sels e)).
+Proof.
+  induction e as [k| |e IHe|e IHe|e1 IHe1 e2 IHe2|cmp e1 IHe1 e2 IHe2|cmp e1 IHe1 e2 IHe2|e1 IHe1 e2 IHe2]; intro i;
+    cbn [reach reach_cond sels];
+    try (destruct (IHe i)); try (destruct (IHe1 i), (IHe2 i)); try destruct cmp;
+    rewrite ?in_app_iff, ?if_in, ?in_app_iff; cbn [In]; tauto.
+Qed.
+
+Lemma no_unless_reach e : no_unless e = true -> reach e = sels e.
 Proof.
   induction e as [k| |e IHe|e IHe|e1 IHe1 e2 IHe2|cmp e1 IHe1 e2 IHe2|cmp e1 IHe1 e2 IHe2|e1 IHe1 e2 IHe2];
-    cbn [sels prim]; rewrite ?in_app_iff; tauto.
+    cbn [no_unless reach sels]; intro H; try reflexivity; try (apply IHe; exact H); try discriminate;
+    apply andb_true_iff in H; destruct H as [H1 H2]; rewrite IHe1, IHe2 by assumption; reflexivity.
 Qed.
 
 Lemma memN_In i l : memN i l = true <-> In i l.
@@ -235,13 +353,20 @@ Qed.
 
 Lemma or_fallback_in e i : or_fallback e i = true -> In i (sels e).
 Proof.
-  induction e as [k| |e IHe|e IHe|e1 IHe1 e2 IHe2|cmp e1 IHe1 e2 IHe2|cmp e1 IHe1 e2 IHe2|e1 IHe1 e2 IHe2]; cbn [or_fallback sels]; intros H; try discriminate; try (apply IHe; exact H).
+  induction e as [k| |e IHe|e IHe|e1 IHe1 e2 IHe2|cmp e1 IHe1 e2 IHe2|cmp e1 IHe1 e2 IHe2|e1 IHe1 e2 IHe2];
+    cbn [or_fallback sels]; intros H; try discriminate; try (apply IHe; exact H).
   - rewrite !orb_true_iff, !andb_true_iff in H. rewrite in_app_iff.
     destruct H as [[[H|H]|[H _]]|[H _]]; [left; apply IHe1; exact H|right; apply IHe2; exact H
                                           |left; apply memN_In; exact H|right; apply memN_In; exact H].
   - rewrite orb_true_iff in H. rewrite in_app_iff. destruct H; [left; apply IHe1|right; apply IHe2]; assumption.
   - rewrite orb_true_iff in H. rewrite in_app_iff. destruct H; [left; apply IHe1|right; apply IHe2]; assumption.
   - rewrite orb_true_iff in H. rewrite in_app_iff. destruct H; [left; apply IHe1|right; apply IHe2]; assumption.
+Qed.
+
+Lemma prim_in_sels e i : In i (prim e) -> In i (sels e).
+Proof.
+  induction e as [k| |e IHe|e IHe|e1 IHe1 e2 IHe2|cmp e1 IHe1 e2 IHe2|cmp e1 IHe1 e2 IHe2|e1 IHe1 e2 IHe2];
+    cbn [sels prim]; rewrite ?in_app_iff; tauto.
 Qed.
 
 Lemma not_in_fallback e i : ~ In i (sels e) -> or_fallback e i = false.
@@ -265,7 +390,8 @@ Qed.
 (** a primary selector has an or-fallback exactly when the whole expression always returns *)
 Lemma prim_fallback e : NoDup (sels e) -> forall i, In i (prim e) -> or_fallback e i = always e.
 Proof.
-  induction e as [k| |e IHe|e IHe|e1 IHe1 e2 IHe2|cmp e1 IHe1 e2 IHe2|cmp e1 IHe1 e2 IHe2|e1 IHe1 e2 IHe2]; cbn [sels prim or_fallback always]; intros Hnd i Hi; try contradiction; try reflexivity.
+  induction e as [k| |e IHe|e IHe|e1 IHe1 e2 IHe2|cmp e1 IHe1 e2 IHe2|cmp e1 IHe1 e2 IHe2|e1 IHe1 e2 IHe2];
+    cbn [sels prim or_fallback always]; intros Hnd i Hi; try contradiction; try reflexivity.
   - apply IHe; assumption.
   - apply IHe; assumption.
   - rewrite has_fallback_always, has_fallback_always.
@@ -292,11 +418,11 @@ Proof.
     rewrite (IHe1 N1 i Hi), (not_in_fallback e2 i Hn). apply orb_false_r.
 Qed.
 
-(** headline *)
-Theorem checked_characterised e : no_unless e = true -> NoDup (sels e) -> forall i,
-  In i (checked e) <-> In i (sels e) /\ or_fallback e i = false.
+(** headline, whole fragment *)
+Theorem checked_characterised_reach e : NoDup (sels e) -> forall i,
+  In i (checked e) <-> In i (reach e) /\ or_fallback e i = false.
 Proof.
-  intros H Hnd i. unfold checked. rewrite (checked_with_struct (or_fallback e) e H). rewrite (sels_split e i H). split.
+  intros Hnd i. unfold checked. rewrite (checked_with_struct (or_fallback e) e). rewrite reach_split. split.
   - intros [[Hp Ha]|[Hn Hf]].
     + split; [left; exact Hp|]. rewrite (prim_fallback e Hnd i Hp). exact Ha.
     + split; [right; exact Hn|exact Hf].
@@ -304,3 +430,8 @@ Proof.
     + left. split; [exact Hp|]. rewrite <- (prim_fallback e Hnd i Hp). exact Hf.
     + right. split; assumption.
 Qed.
+
+(** ... and without `unless` every selector is reachable *)
+Theorem checked_characterised e : no_unless e = true -> NoDup (sels e) -> forall i,
+  In i (checked e) <-> In i (sels e) /\ or_fallback e i = false.
+Proof. intros H Hnd i. rewrite <- (no_unless_reach e H). apply checked_characterised_reach. exact Hnd. Qed.
